@@ -6,7 +6,8 @@ from props import stacklib as L
 ID = "C11"
 COQ_PROPS = "Props/C11.v"
 THEOREMS = ["C11_spacing_tol", "C11_congruent_tol", "C11_iff", "C11_refuse", "C11_queries_refuse_together",
-            "C11_empty_refused", "C11_count_not_factoring_refused", "C11_uneven_spacing_refused",
+            "C11_empty_refused", "C11_uneven_positions_refused", "C11_count_not_factoring_refused",
+            "C11_uneven_spacing_refused", "C11_uneven_vectors_refused",
             "C11_regular_grid_accepted", "C11_add", "C11_add_transactional"]
 ALLOWED_AXIOMS = []
 RULE = ("synthetic in-memory DICOM series: S<=4 x T<=3 x V<=3 grids (thorough: S<=6, T<=4) in 7 orientations "
